@@ -21,11 +21,21 @@ pub struct DestLedger {
     /// per node (any number of nodes: scenario `multi` has more than two)
     validated: HashMap<usize, HashSet<SocketAddr>>,
     /// per (node, connection): for each queued datagram event, did the datagram contain a Handshake packet?
-    marks: HashMap<(usize, usize), VecDeque<bool>>,
+    marks: HashMap<(usize, usize), VecDeque<(bool, bool)>>,
+    /// every short-header-form datagram an ENDPOINT (not a connection) of this simulation emitted, i.e. every stateless
+    /// reset, with the emitting node (C08: which `ConnectionLost(Reset)` reports have a stateless reset behind them)
+    resets_emitted: HashMap<Vec<u8>, usize>,
+    /// per (node, connection): stateless resets of ANOTHER node's endpoint the connection was handed
+    resets_handled: HashMap<(usize, usize), u32>,
     /// per (node, destination): tokens of the Retry packets the node sent there
     retry_tokens: HashMap<(usize, SocketAddr), Vec<Vec<u8>>>,
     pub checks: u64,
     pub off_path_tx: u64,
+    /// per (node, connection): the remote address of the current path epoch and the simulator's cumulative byte
+    /// counts (sent to it, received from it) at the moment the connection's path moved there
+    epoch: HashMap<(usize, usize), (SocketAddr, u64, u64)>,
+    /// per (node, connection, address): how many times the connection's path moved TO that address
+    visits: HashMap<(usize, usize, SocketAddr), u32>,
 }
 
 fn varint(d: &[u8], at: usize) -> Option<(u64, usize)> {
@@ -115,13 +125,17 @@ impl DestLedger {
 
     /// the datagram was routed to connection `ch` (its event was queued)
     pub fn routed(&mut self, node: usize, ch: usize, data: &[u8]) {
-        self.marks.entry((node, ch)).or_default().push_back(has_handshake_packet(data));
+        let reset = self.resets_emitted.get(data).is_some_and(|n| *n != node);
+        self.marks.entry((node, ch)).or_default().push_back((has_handshake_packet(data), reset));
     }
 
     /// the connection handled the oldest queued datagram event; `authed_grew`: its count of authenticated
     /// packets grew while doing so
     pub fn handled(&mut self, node: usize, ch: usize, from: SocketAddr, authed_grew: bool) {
-        let hs = self.marks.get_mut(&(node, ch)).and_then(|q| q.pop_front()).unwrap_or(false);
+        let (hs, reset) = self.marks.get_mut(&(node, ch)).and_then(|q| q.pop_front()).unwrap_or((false, false));
+        if reset {
+            *self.resets_handled.entry((node, ch)).or_default() += 1;
+        }
         if hs && authed_grew {
             self.validated.entry(node).or_default().insert(from);
         }
@@ -129,6 +143,10 @@ impl DestLedger {
 
     /// an endpoint-level datagram (no connection) leaves `node`
     pub fn ep_tx(&mut self, node: usize, dst: SocketAddr, data: &[u8]) {
+        if data.first().is_some_and(|b| b & 0x80 == 0) {
+            // the only short-header-form datagram an endpoint builds itself is a stateless reset
+            self.resets_emitted.insert(data.to_vec(), node);
+        }
         if let Some((3, v, _, _)) = long_packet(data) {
             if v != 0 {
                 let dl = data[5] as usize;
@@ -139,6 +157,52 @@ impl DestLedger {
                 }
             }
         }
+    }
+
+    /// How many stateless resets built by another node's endpoint (genuine, or replayed byte for byte) connection `ch`
+    /// of `node` has handled so far.
+    pub fn stateless_resets_handled(&self, node: usize, ch: usize) -> u32 {
+        self.resets_handled.get(&(node, ch)).copied().unwrap_or(0)
+    }
+
+    /// the connection's path moved to `to` (observed by the simulator: `Connection::remote_address` changed while a
+    /// datagram was handled); `sent_base` / `recvd_base`: cumulative counts of `to` that do NOT belong to the new epoch
+    /// (the datagram that revealed the path does)
+    pub fn path_moved(&mut self, node: usize, ch: usize, to: SocketAddr, sent_base: u64, recvd_base: u64) {
+        self.epoch.insert((node, ch), (to, sent_base, recvd_base));
+        *self.visits.entry((node, ch, to)).or_default() += 1;
+    }
+
+    /// Key of a CUMULATIVE excess towards the connection's own (never validated) path address `dst`, judged at the
+    /// start of a datagram with `sent` / `recvd` bytes ever exchanged with `dst`.
+    ///
+    /// The recorded finding `amplification-limit-exceeded-cumulative` is a HISTORY: the peer made the path move to
+    /// `dst` at least twice within the execution (alternating spoofed sources), every migration granted a fresh
+    /// budget, and the bytes of the CURRENT stay alone are within "3x, completing one datagram".  Only that history
+    /// gets the recorded key.  A cumulative excess on a path that never returned to the address, or one whose
+    /// current epoch by itself is beyond 3x (the gate proper is broken), is `...-cumulative-other-cause`.
+    pub fn cumulative_key(&self, node: usize, ch: usize, dst: SocketAddr, sent: u64, recvd: u64) -> &'static str {
+        let visits = self.visits.get(&(node, ch, dst)).copied().unwrap_or(0);
+        let (sb, rb) = match self.epoch.get(&(node, ch)) {
+            Some((a, sb, rb)) if *a == dst => (*sb, *rb),
+            _ => (0, 0),
+        };
+        let epoch_ok = Self::may_start(sent.saturating_sub(sb), recvd.saturating_sub(rb));
+        if visits >= 2 && epoch_ok {
+            "amplification-limit-exceeded-cumulative"
+        } else {
+            "amplification-limit-exceeded-cumulative-other-cause"
+        }
+    }
+
+    /// the facts `cumulative_key` decides on, for the failure message
+    pub fn history(&self, node: usize, ch: usize, dst: SocketAddr, sent: u64, recvd: u64) -> String {
+        let visits = self.visits.get(&(node, ch, dst)).copied().unwrap_or(0);
+        let (sb, rb) = match self.epoch.get(&(node, ch)) {
+            Some((a, sb, rb)) if *a == dst => (*sb, *rb),
+            _ => (0, 0),
+        };
+        format!("the path moved to this address {visits} time(s) in this execution; during the current stay {} bytes sent, {} received", sent.saturating_sub(sb), recvd.saturating_sub(rb))
     }
 
     /// "never more than three times the bytes received from it, apart from completing one datagram once any
